@@ -78,6 +78,81 @@ func verifC03Merge(a, b *Desc) (*Desc, *Desc) {
 	return r, ch.(*Desc)
 }
 
+// Merges of descriptors whose instances claim the same token: the result must not depend on the merge direction or on
+// map iteration order (the statement's commutativity and idempotence carry no proviso; only the convergence sentence
+// excludes token conflicts). The expected owner is the statement of C05: a leaving instance loses to one that is not
+// leaving, otherwise the smaller identifier wins.
+func TestVerifBounded_C03_ConflictingTokens(t *testing.T) {
+	cases, fails := 0, 0
+	report := func(id, msg string) {
+		fails++
+		if fails <= 5 {
+			fmt.Printf("BOUNDED-VIOLATION case=%s %s\n", id, msg)
+		}
+	}
+	states := []InstanceState{ACTIVE, LEAVING, PENDING, JOINING}
+	for _, sa := range states {
+		for _, sb := range states {
+			for _, names := range [][2]string{{"a", "b"}, {"b", "a"}, {"inst-10", "inst-9"}} {
+				cases++
+				id := fmt.Sprintf("c03:conflict:%s=%v:%s=%v", names[0], sa, names[1], sb)
+				mk := func(n string, st InstanceState, own uint32) *Desc {
+					d := NewDesc()
+					d.Ingesters[n] = InstanceDesc{Addr: n, Timestamp: 100, State: st, Zone: "z", Id: n, Tokens: []uint32{7, own}}
+					return d
+				}
+				a, b := mk(names[0], sa, 100), mk(names[1], sb, 200)
+				want := names[0]
+				switch {
+				case sa == LEAVING && sb != LEAVING:
+					want = names[1]
+				case sb == LEAVING && sa != LEAVING:
+					want = names[0]
+				case names[1] < names[0]:
+					want = names[1]
+				}
+				seen := map[string]bool{}
+				for rep := 0; rep < 40; rep++ {
+					ab, _ := verifC03Merge(a, b)
+					ba, _ := verifC03Merge(b, a)
+					seen[verifC03Key(ab)] = true
+					seen[verifC03Key(ba)] = true
+					if verifC03Key(ab) != verifC03Key(ba) {
+						report(id+":commutative", fmt.Sprintf("M(a,b)=%s M(b,a)=%s", verifC03Key(ab), verifC03Key(ba)))
+						break
+					}
+					abb, ch := verifC03Merge(ab, b)
+					if verifC03Key(abb) != verifC03Key(ab) || ch != nil {
+						report(id+":idempotent", fmt.Sprintf("M(M(a,b),b)=%s M(a,b)=%s", verifC03Key(abb), verifC03Key(ab)))
+						break
+					}
+					owners := 0
+					for n, e := range ab.Ingesters {
+						for _, tk := range e.Tokens {
+							if tk == 7 {
+								owners++
+								if n != want {
+									report(id+":winner", fmt.Sprintf("token 7 went to %s, expected %s: %s", n, want, verifC03Key(ab)))
+								}
+							}
+						}
+					}
+					if owners != 1 {
+						report(id+":owners", fmt.Sprintf("token 7 has %d owners after the merge: %s", owners, verifC03Key(ab)))
+					}
+				}
+				if len(seen) > 1 {
+					report(id+":deterministic", fmt.Sprintf("%d different results for the same two descriptors", len(seen)))
+				}
+			}
+		}
+	}
+	fmt.Printf("BOUNDED-CASES name=C03_ConflictingTokens n=%d distinct=%d bound=two single-instance descriptors sharing one token, every pair of states {ACTIVE, LEAVING, PENDING, JOINING} x 3 name orders, both merge directions, 40 repetitions each (map iteration order)\n", cases, cases)
+	if fails > 0 {
+		t.Fatalf("%d violations", fails)
+	}
+}
+
 func TestVerifBounded_C03_RingDesc(t *testing.T) {
 	descs := verifC03Descs()
 	cases, fails := 0, 0
